@@ -162,6 +162,26 @@ func classifyCell(c Cell) (verdict int, owes1002 bool) {
 	return vValid, false
 }
 
+// headerLevelViolation: the frame's first two bytes alone show the violation
+// (reserved bit, opcode, control frame not final or with an extended length,
+// data/continuation opcode out of place, wrong MASK bit).
+func headerLevelViolation(c Cell) bool {
+	isCtl := c.Op >= 8
+	switch {
+	case c.R2 || c.R3, c.R1 && !c.Comp:
+		return true
+	case c.Op > 2 && c.Op < 8, c.Op > 10:
+		return true
+	case isCtl && (!c.Fin || c.Len >= 3):
+		return true
+	case (c.Op == 1 || c.Op == 2) && c.Inside, c.Op == 0 && !c.Inside:
+		return true
+	case c.Mask != c.Server:
+		return true
+	}
+	return false
+}
+
 func fill(n int, b byte) []byte {
 	p := make([]byte, n)
 	for i := range p {
@@ -457,6 +477,71 @@ func checkC04Cell(c Cell, o *Obs) error {
 		code := 1002
 		if err := checkWriteBack(tr.Wrote, cfg, nil, code, !owes); err != nil {
 			return err
+		}
+		if headerLevelViolation(c) {
+			// The violation is in the first two bytes of the frame.  A peer that has
+			// sent just those and waits for the answer gets it: the error is
+			// reported and the 1002 close written "at that frame", without the
+			// library asking the transport for the rest of a frame it refuses.
+			o.Evals(1)
+			tr2 := xport.NewScriptConn(nil, nil)
+			conn2, err := NewConn(cfg, tr2, nil)
+			if err != nil {
+				return err
+			}
+			head := wsref.EncodeFrames(cell)[:2]
+			tr2.SetInput(append(wsref.EncodeFrames(prefix), head...), nil)
+			h2 := &handlerLog{failAt: -1}
+			h2.install(conn2)
+			_, final2, _, _ := drainConn(conn2, 6, 2)
+			if final2 == nil {
+				return errors.New("only the two header bytes of the violating frame have arrived: no error reported")
+			}
+			if tr2.Starved > 0 {
+				return fmt.Errorf("only the two header bytes (%x) of the violating frame have arrived and the peer is waiting: the library asked the transport for more input %d time(s) before answering (error then reported: %v) - on a live connection it would wait for the payload of a frame it is going to refuse", head, tr2.Starved, final2)
+			}
+			if err := checkWriteBack(tr2.Wrote, cfg, nil, code, !owes); err != nil {
+				return fmt.Errorf("only the two header bytes of the violating frame have arrived: %w", err)
+			}
+			o.Class("violation_header_only_peer_waits")
+		}
+		if c.Inside {
+			// The open message is read with ReadJSON and its first fragment already
+			// holds a complete document: that call succeeds without having met the
+			// violating frame; the read that does meet it returns the error.
+			o.Evals(1)
+			tr3 := xport.NewScriptConn(nil, nil)
+			conn3, err := NewConn(cfg, tr3, nil)
+			if err != nil {
+				return err
+			}
+			first := wsref.Frame{Fin: false, Opcode: wsref.OpText, Masked: c.Server, Key: [4]byte{7, 0x5a, 0xf8, 0x21}, Payload: []byte(`{"a":[1,2]}`)}
+			w3 := wsref.EncodeFrames([]wsref.Frame{first})
+			w3 = append(w3, wsref.EncodeFrames(cell)...)
+			w3 = append(w3, wsref.EncodeFrames(tail)...)
+			tr3.SetInput(w3, nil)
+			var v interface{}
+			jerr := conn3.ReadJSON(&v)
+			wroteAtReturn := len(tr3.Wrote)
+			if jerr == nil {
+				if m, ok := v.(map[string]interface{}); !ok || fmt.Sprint(m["a"]) != "[1 2]" {
+					return fmt.Errorf("ReadJSON of an open message whose first fragment is the document {\"a\":[1,2]} returned %v", v)
+				}
+				if wroteAtReturn > 0 {
+					return fmt.Errorf("ReadJSON returned success although the violating frame behind the document had been met inside that call (%d bytes, the 1002 close, were already written when it returned): the read call that meets the violation must return the error", wroteAtReturn)
+				}
+			}
+			_, _, nerr := conn3.NextReader()
+			if nerr == nil {
+				return errors.New("open message read with ReadJSON, then a violating frame: the next read returned no error")
+			}
+			if jerr != nil && !sameErr(jerr, nerr) {
+				return fmt.Errorf("ReadJSON failed with %q, the next read with %q", jerr, nerr)
+			}
+			if err := checkWriteBack(tr3.Wrote, cfg, nil, code, !owes); err != nil {
+				return fmt.Errorf("open message read with ReadJSON: %w", err)
+			}
+			o.Class("violation_behind_a_document_read_with_ReadJSON")
 		}
 	case vValid:
 		o.Class("valid")
